@@ -1,21 +1,21 @@
 SPECIFICATION Spec
 CONSTANTS
   T = {1}
-  StartKinds = {"dq"}
+  StartKinds = {"dq", "di", "df", "uq"}
   MaxTasks = 4
   MaxCycles = 2
   MaxOps = 1
-  MaxEnv = 3
+  MaxEnv = 2
   MaxRequeue = 1
-  MaxOffers = 2
-  MaxSplit = 0
+  MaxOffers = 1
+  MaxSplit = 1
   SkipOccupied = TRUE
   CallbackOwnOnly = TRUE
   RemoveCancels = TRUE
   CycleSkipsLocked = TRUE
   OfferSkipsLocked = TRUE
   OfferSkipsOccupied = TRUE
-  StartRechecks = TRUE
+  StartRechecks = FALSE
 INVARIANT TypeOK
 INVARIANT AtMostOneNegotiation
 INVARIANT SlotsTrackLive
